@@ -31,6 +31,7 @@ RULE = (
     "create_machine -> start -> send x4 must either work or raise an XStateMachineError subclass (a raw TypeError / "
     "AttributeError / KeyError / ValueError is a violation); corruptions the statement and the field table declare "
     "uninterpretable (non-object states/on/after/invoke item, non-string id/initial/target, ...) must be rejected. "
+    "Both eventless spellings may be used in one state (first k candidates under on[''], the rest under always). "
     "Non-trivial (spell) = the two renderings differ in >=3 spelling choices incl. a target spelling; (corrupt) = each "
     "corrupted position is a distinct case."
 )
